@@ -110,6 +110,7 @@ def build_case(c):
                 gr1.make_rabin_transducer(zk, yki, xkijr, aut)
         except AssertionError:
             return None, desc
+    aut._verif_z = z
     return aut, desc
 
 
